@@ -446,7 +446,7 @@ def rule_layer_removal(ctx: Ctx) -> None:
     ff = ctx.flow(fn)
     head = [st for st in walk_stmts(fn.node.body) if isinstance(st, ast.Assign) and path_of(st.targets[0]) == f"{link}.latency"]
     okh = len(head) == 1 and path_of(head[0].value) == f"{layer}._base" and ff.holds_at(node_of(ff.cfg, head[0]), Fact("is", f"{link}.latency", layer))
-    loops = [st for st in fn.node.body if isinstance(st, ast.While)]
+    loops = [st for st in walk_stmts(fn.node.body) if isinstance(st, ast.While)]   # at top level after an early return, or inside the `else` of the head test
     okc = len(loops) == 1
     cursor = None
     if okc:
@@ -455,8 +455,8 @@ def rule_layer_removal(ctx: Ctx) -> None:
         okc = len(adv) == 1
         if okc:
             cursor = path_of(adv[0].targets[0])
-            init = [st for st in fn.node.body if isinstance(st, ast.Assign) and path_of(st.targets[0]) == cursor]
-            okc = len(init) == 1 and path_of(init[0].value) == f"{link}.latency" and fn.node.body.index(init[0]) < fn.node.body.index(lp)
+            init = [st for st in walk_stmts(fn.node.body) if isinstance(st, ast.Assign) and path_of(st.targets[0]) == cursor and st not in list(walk_stmts(lp.body))]
+            okc = len(init) == 1 and path_of(init[0].value) == f"{link}.latency" and not always_before(ctx, fn, lambda x: x.ast is init[0], lambda x: x.ast is lp or (x.kind == "test" and any(y is x.ast for y in ast.walk(lp.test))))
             spl = [st for st in walk_stmts(lp.body) if isinstance(st, ast.Assign) and path_of(st.targets[0]) == f"{cursor}._base"]
             okc = okc and len(spl) == 1 and path_of(spl[0].value) == f"{layer}._base" and ff.holds_at(node_of(ff.cfg, spl[0]), Fact("is", f"{cursor}._base", layer))
             okc = okc and f"isinstance({cursor}, _CompoundLatency)" in unparse(lp.test)
@@ -484,8 +484,9 @@ def rule_hunted_fixed(ctx: Ctx) -> None:
     okc = "_capacity_faults" in unparse(cc.node) and any(isinstance(r_, ast.Return) and "state[0]" in unparse(r_.value) for r_ in walk_stmts(cc.node.body))
     for q in ("Resource.acquire", "Resource.try_acquire"):
         fn = prog.func(RESP, q)
+        sd_r = single_defs(fn)
         guards = [t_ for t_ in walk_stmts(fn.node.body) if isinstance(t_, ast.If) and any(isinstance(b_, ast.Raise) for b_ in t_.body) and any(f.sig[0] == "lt" and f.sig[2] == "amount" for f in atoms(t_.test, True))]
-        okg = len(guards) == 1 and {f.sig for f in atoms(guards[0].test, True)} == {("lt", "self._configured_capacity()", "amount")}
+        okg = len(guards) == 1 and {f.sig for f in atoms(expand(guards[0].test, sd_r), True)} == {("lt", "self._configured_capacity()", "amount")}
         ctx.ob("C06-3", "G7", fn, guards[0] if guards else None, okg and okc, f"{q} rejects only a request larger than the configured capacity (`self._configured_capacity()`), not one that merely exceeds a temporarily reduced capacity")
 
 
